@@ -37,9 +37,24 @@ class ScriptedRestart(ConvergenceController):
 
     def determine_restart(self, controller, S, **kwargs):
         cur = block.CUR
-        if cur is None or S.status.iter < S.params.maxiter:
+        if cur is None:
             return None
         key = (cur.block, S.status.slot)
+        if cur.cfg.get('restart_early'):
+            # a detector that may raise the flag in ANY convergence check of the step (iteration >= 1), i.e. possibly
+            # while the step and its predecessors are still iterating; asked once per check until it has fired
+            if S.status.iter < 1:
+                return None
+            if not cur.restart_req.get(key):
+                cur.restart_req[key] = cur.ctx.choose(2, f'rst b{cur.block} s{S.status.slot} k{S.status.iter}', 1) == 1
+                if cur.restart_req[key]:
+                    cur.restart_iter = getattr(cur, 'restart_iter', {})
+                    cur.restart_iter[key] = S.status.iter
+            if cur.restart_req[key]:
+                S.status.restart = True
+            return None
+        if S.status.iter < S.params.maxiter:
+            return None
         if key not in cur.restart_req:
             cur.restart_req[key] = cur.ctx.choose(2, f'rst b{cur.block} s{S.status.slot}', 1) == 1
         if cur.restart_req[key]:
